@@ -69,7 +69,7 @@ Event(ln) ==
       [] ln.ev = "Exit"      -> Known(ln.a.dn) /\ SvcExit(ln.a.dn, ln.a.kind)
       [] ln.ev = "Kill"      -> Kill
       [] ln.ev = "ObsKilled" -> ~procUp /\ UNCHANGED vars
-      [] ln.ev \in {"Settled", "WaitSettled", "Obs", "End"} -> UNCHANGED vars     \* Obs: the driver sampled the tree between steps
+      [] ln.ev \in {"Settled", "WaitSettled", "Obs", "AllUp", "End"} -> UNCHANGED vars     \* Obs: the driver sampled the tree between steps
       [] OTHER               -> FALSE         \* Double / Stall / HarnessError lines match nothing
 
 TraceInit ==
